@@ -15,13 +15,15 @@ TIMINGS = ["same_before", "same_after", "earlier_eval", "never"]
 PATH = "/c9/prod"
 
 
-def build(pkg, placement, producer, timing, two_modules=False, load_form="assign", via_method=None):
+def build(pkg, placement, producer, timing, two_modules=False, load_form="assign", via_method=None, builtin_names=False):
     _lf[0] = load_form
     _vm[0] = via_method
+    _bn[0] = builtin_names
     return _build(pkg, placement, producer, timing, two_modules)
 
 
 _lf = ["assign"]
+_bn = [False]  # the helpers that contain the load are named like Python builtins (input, filter, format)
 _vm = [None]  # None | "producer" | "reader" | "both": that side of the pipeline is reached through a method of a class
 
 
@@ -48,18 +50,18 @@ def _build(pkg, placement, producer, timing, two_modules=False):
     if placement == "top":
         reader_body_fn = None
     elif placement == "helper":
-        h = gen.add_fn(p, m1, "rh", const=51)
+        h = gen.add_fn(p, m1, "input" if _bn[0] else "rh", const=51)
         p["fns"][h]["stmts"] = [gen.s_load(PATH, _lf[0])]
     elif placement == "helper2":
-        h2 = gen.add_fn(p, m1, "rh2", const=52)
+        h2 = gen.add_fn(p, m1, "filter" if _bn[0] else "rh2", const=52)
         p["fns"][h2]["stmts"] = [gen.s_load(PATH, _lf[0])]
-        h = gen.add_fn(p, m1, "rh", const=51)
+        h = gen.add_fn(p, m1, "input" if _bn[0] else "rh", const=51)
         p["fns"][h]["stmts"] = [gen.s_call(h2, [])]
     elif placement == "kept":
         h = gen.add_fn(p, m1, "reader", const=53)
         p["fns"][h]["stmts"] = [gen.s_load(PATH, _lf[0])]
     else:
-        hh = gen.add_fn(p, m1, "rkh", const=54)
+        hh = gen.add_fn(p, m1, "format" if _bn[0] else "rkh", const=54)
         p["fns"][hh]["stmts"] = [gen.s_load(PATH, _lf[0])]
         h = gen.add_fn(p, m1, "reader", const=53)
         p["fns"][h]["stmts"] = [gen.s_call(hh, [])]
@@ -122,9 +124,10 @@ def case_job(arg):
     load_form = arg[8] if len(arg) > 8 else "assign"
     producer_entry = arg[9] if len(arg) > 9 else "eval"
     via_method = arg[10] if len(arg) > 10 else None
+    bnames = arg[11] if len(arg) > 11 else False
     rep = core.Report("C09")
     rep.evaluations = 1
-    p0 = build("c9_%d" % idx, placement, producer, timing, two_mod, load_form, via_method)
+    p0 = build("c9_%d" % idx, placement, producer, timing, two_mod, load_form, via_method, bnames)
     p1, d = edits_of(p0, edit)
     ids = p0["_ids"]
     R, P = ids["rmain"], ids["pmain"]
@@ -156,7 +159,7 @@ def case_job(arg):
             st["new_process"] = i == 0
             if i > 0 and "how" not in st:
                 st["how"] = "reload"
-    case = progs._case("load:%s/%s/%s/%s/%s/%s/%s" % (placement, producer, timing, edit, load_form, producer_entry, via_method or "-"), [p0, p1], {(0, 1): d}, hist, store)
+    case = progs._case("load:%s/%s/%s/%s/%s/%s/%s" % (placement, producer, timing, edit, load_form, producer_entry, (via_method or "-") + ("+builtin-names" if bnames else "")), [p0, p1], {(0, 1): d}, hist, store)
     obs = e1.run_case(case)
     if obs["failed"]:
         rep.inconclusive.append(obs["failed"])
@@ -199,7 +202,7 @@ def case_job(arg):
             rep.count("reader_invalidation_checks")
             if "reader" not in obs["steps"][log_idx]["impl"]["log"]:
                 rep.violate("%s: the kept reader was not re-evaluated after %s changed what it serves" % (case["name"], PATH), {"case": case, "step": log_idx}, mechanism="reader-not-invalidated", features=feats)
-    rep.nontriv(("c09", placement, producer, timing, edit, store, populated, two_mod, load_form, via_method))
+    rep.nontriv(("c09", placement, producer, timing, edit, store, populated, two_mod, load_form, via_method, bnames))
     return rep
 
 
@@ -305,6 +308,9 @@ def run(tier, seed):
                             jobs.append((placement, producer, timing, edit, store, populated, idx % 2 == 0, idx, "assign"))
                             if timing == "earlier_eval" and edit != "unrelated":
                                 jobs.append((placement, producer, timing, edit, store, populated, idx % 2 == 0, idx * 10 + 9, "assign", "direct"))
+                            # the helpers that contain the load carry names of Python builtins
+                            if edit in ("prod_const", "prod_var") and placement in ("helper", "helper2", "kept_helper") and timing != "never" and store == "local":
+                                jobs.append((placement, producer, timing, edit, store, populated, idx % 2 == 0, idx * 10 + 4, "assign", "eval", None, True))
                             # one or both sides of the pipeline reached through a method of a class
                             if edit == "prod_const" and (timing != "never") and (tier != "quick" or store == "local"):
                                 for vi, vm in enumerate(("producer", "reader", "both")):
@@ -349,8 +355,10 @@ def replay(payload):
     load_form = (name.split("/") + ["assign"])[4]
     producer_entry = (name.split("/") + ["assign", "eval"])[5]
     via_method = (name.split("/") + ["assign", "eval", "-"])[6]
+    bnames = via_method.endswith("+builtin-names")
+    via_method = via_method.replace("+builtin-names", "")
     via_method = None if via_method == "-" else via_method
     idx = int(c["versions"][0]["pkg"].split("_")[1])
     populated = any(st.get("entry") for st in c["history"][:1]) and timing == "same_after"
-    rep.merge(case_job((placement, producer, timing, edit, c["store"], populated, len(c["versions"][0]["modules"]) == 2, idx, load_form, producer_entry, via_method)))
+    rep.merge(case_job((placement, producer, timing, edit, c["store"], populated, len(c["versions"][0]["modules"]) == 2, idx, load_form, producer_entry, via_method, bnames)))
     return rep
